@@ -5,7 +5,7 @@ PREFIXES = ("C05-", "C04-file-outside", "final-file-set", "C01-stored-values", "
 
 
 def run(ctx):
-    cc.run(ctx, PREFIXES, nsim=ctx.pick(40, 1200), nrand=ctx.pick(60, 2500), sim_depth=ctx.pick(12, 16),
+    cc.run(ctx, PREFIXES, nsim=ctx.pick(40, 700), nrand=ctx.pick(60, 1200), sim_depth=ctx.pick(12, 16),
            what="valid rf_write / rf_write_blocks calls interleaved with every malformed kind (past index, first offset not 0, "
                 "non-increasing offsets / indices, overlapping blocks, offset past the end, mismatched lengths) and zero-length "
                 "writes; a byte-level hash of the whole channel directory and the writer getters are taken around every "
